@@ -70,6 +70,7 @@ let runners : (string * (z list -> z list)) list = [
   "hash", run_hash;
   "sol", run_sol;
   "buf", run_buf;
+  "lim", run_lim;
   "fnode", run_fnode;
   "pull", run_pull;
   "mon", run_mon;
